@@ -21,6 +21,75 @@ def probe():
     return out
 
 
+def values_suite():
+    """xarray operations on registered dask_array-backed objects vs the same objects backed by NumPy"""
+    import numpy as np
+    import xarray as xr
+    import dask_array as da
+    rs = np.random.RandomState(3)
+    a = rs.rand(4, 6)
+    b = rs.rand(6, 4)
+    t = rs.rand(6, 5)
+
+    def objs(chunked):
+        def wrap(x, dims, chunks):
+            return xr.DataArray(da.from_array(x, chunks=chunks) if chunked else x, dims=dims)
+        A = wrap(a, ("x", "y"), (2, 3))
+        B = wrap(b, ("y", "x"), (3, 2))
+        T = wrap(t, ("y", "t"), (2, 5))
+        ds = xr.Dataset({"a": A, "b": B})
+        return A, B, T, ds
+
+    def demean(v):
+        return v - v.mean()
+
+    def plus_meta(obj):
+        return obj + 1
+
+    ops = {
+        "arith+reduce": lambda A, B, T, ds: ((A + 1).mean("x") * 2),
+        "transpose-add": lambda A, B, T, ds: A + B.transpose("x", "y"),
+        "broadcast-add": lambda A, B, T, ds: (A + B),
+        "where": lambda A, B, T, ds: A.where(A > 0.5, -1.0),
+        "isel-slices": lambda A, B, T, ds: A.isel(x=slice(1, 3), y=[0, 2, 5]),
+        "cumsum": lambda A, B, T, ds: A.cumsum("y"),
+        "diff": lambda A, B, T, ds: A.diff("y"),
+        "pad": lambda A, B, T, ds: A.pad(y=(1, 2), mode="edge"),
+        "dot": lambda A, B, T, ds: xr.dot(A, T),
+        "std": lambda A, B, T, ds: A.std("x", ddof=1),
+        "quantile": lambda A, B, T, ds: A.chunk({"x": -1}).quantile(0.5, dim="x") if hasattr(A.data, "dask") or hasattr(A.data, "expr") else A.quantile(0.5, dim="x"),
+        "concat": lambda A, B, T, ds: xr.concat([A, A * 2], dim="x"),
+        "stack": lambda A, B, T, ds: A.stack(z=("x", "y")),
+        "coarsen": lambda A, B, T, ds: A.coarsen(y=2).mean(),
+        "dataset-reduce": lambda A, B, T, ds: (ds.mean("x").to_array()),
+        "map_blocks-dataarray": lambda A, B, T, ds: xr.map_blocks(plus_meta, A) if hasattr(A.data, "expr") else plus_meta(A),
+        "map_blocks-dataset-mixed-dim-order": lambda A, B, T, ds: xr.map_blocks(plus_meta, ds).to_array() if hasattr(A.data, "expr") else plus_meta(ds).to_array(),
+        "apply_ufunc-vectorize": lambda A, B, T, ds: xr.apply_ufunc(demean, A.chunk({"y": -1}) if hasattr(A.data, "expr") else A, input_core_dims=[["y"]], output_core_dims=[["y"]], vectorize=True,
+                                                                    dask="parallelized", output_dtypes=[float]),
+        "apply_ufunc-vectorize-Tcore": lambda A, B, T, ds: xr.apply_ufunc(demean, T.chunk({"t": -1}) if hasattr(T.data, "expr") else T, input_core_dims=[["t"]],
+                                                                          output_core_dims=[["t"]], vectorize=True, dask="parallelized", output_dtypes=[float]),
+        "apply_ufunc-reduce-core": lambda A, B, T, ds: xr.apply_ufunc(lambda v: v.max(axis=-1), A.chunk({"y": -1}) if hasattr(A.data, "expr") else A, input_core_dims=[["y"]],
+                                                                      dask="parallelized", output_dtypes=[float]),
+    }
+    out = {}
+    want_objs, got_objs = objs(False), objs(True)
+    for name, f in ops.items():
+        try:
+            want = f(*want_objs)
+            want = np.asarray(want.values)
+        except Exception as e:  # noqa: BLE001
+            out[name] = {"skipped": "numpy side raises " + type(e).__name__}
+            continue
+        try:
+            got = f(*got_objs)
+            lazy = hasattr(getattr(got, "data", None), "expr")
+            got = np.asarray(got.compute().values)
+            out[name] = {"equal": bool(got.shape == want.shape and np.allclose(got, want, equal_nan=True)), "lazy": bool(lazy)}
+        except Exception as e:  # noqa: BLE001
+            out[name] = {"error": type(e).__name__ + ": " + str(e)[:120]}
+    return out
+
+
 def main():
     actions = json.loads(sys.argv[1])
     res = []
@@ -29,6 +98,9 @@ def main():
             if a == "register":
                 import dask_array.xarray
                 dask_array.xarray.register()
+            elif a == "values-suite":
+                res.append({"action": a, "suite": values_suite(), **probe()})
+                continue
             elif a == "compute":
                 import numpy as np
                 import xarray as xr
